@@ -1058,7 +1058,7 @@ class Interp:
             except AttributeError:
                 raise PyRaise("AttributeError", f"{o!r}.{name}")
             return self.wrap_global(v, name)
-        if isinstance(obj, (str, BStr, list, dict, tuple, set, SList, SMap, SDate, _SymSet)) or (isinstance(obj, SV)):
+        if isinstance(obj, (str, BStr, list, dict, tuple, set, SList, SMap, SDate, _SymSet, sym.PList)) or (isinstance(obj, SV)):
             return BoundM(obj, name)
         if isinstance(obj, SEnum):
             if name == "value":
@@ -1225,6 +1225,20 @@ class Interp:
             finally:
                 self.ctx.ghost = g
         fn = self.eval(e.func, env)
+        if (isinstance(fn, NativeRef) and fn.obj in (all, any) and len(e.args) == 1 and isinstance(e.args[0], ast.GeneratorExp)
+                and len(e.args[0].generators) == 1 and not e.args[0].generators[0].ifs
+                and isinstance(e.args[0].generators[0].target, ast.Name)):
+            g = e.args[0].generators[0]
+            itv = self.eval(g.iter, env)
+            if isinstance(mk(itv), SV) and mk(itv).kind == "str":
+                return self._char_quantifier(fn.obj is all, e.args[0].elt, g.target.id, mk(itv), env)
+            items = self.iterate(itv, env, what="comprehension")
+            vals = []
+            cenv = Env(env.gl, {}, env, env.func)
+            for x in items:
+                cenv.locals[g.target.id] = x
+                vals.append(self.eval(e.args[0].elt, cenv))
+            return self.call(fn, [vals], {}, e, env)
         args = []
         for a in e.args:
             if isinstance(a, ast.Starred):
@@ -1243,11 +1257,36 @@ class Interp:
                 kwargs[k.arg] = self.eval(k.value, env)
         return self.call(fn, args, kwargs, e, env)
 
+    def _char_quantifier(self, is_all, elt, var, s: SV, env):
+        """all/any(pred(ch) for ch in s) over an unbounded string: pred is evaluated on every ASCII
+        character (input domain A-ASCII) and the quantifier becomes a regular-language membership."""
+        good = []
+        cenv = Env(env.gl, {}, env, env.func)
+        for c in range(128):
+            cenv.locals[var] = chr(c)
+            v = mk(self.eval(elt, cenv))
+            if not is_concrete(v):
+                raise Unsupported("character predicate depends on symbolic state")
+            if bool(v):
+                good.append(chr(c))
+        self.used_models.add("A-ASCII: per-character predicates over a symbolic string are enumerated over code points 0..127 (ANTLR FileStream decodes as ASCII)")
+        chars = good if is_all else [chr(c) for c in range(128) if chr(c) not in good]
+        if chars:
+            cls = z3.Union(*[z3.Re(z3.StringVal(c)) for c in chars]) if len(chars) > 1 else z3.Re(z3.StringVal(chars[0]))
+            member = z3.InRe(s.t, z3.Star(cls))
+        else:
+            member = s.t == z3.StringVal("")
+        ascii_only = z3.InRe(s.t, z3.Star(z3.Range(z3.StringVal(chr(0)), z3.StringVal(chr(127)))))
+        self.ctx.assume(ascii_only)
+        return sym.sbool(member if is_all else z3.Not(member))
+
     def call(self, fn, args, kwargs, node=None, env=None):
         from . import spec as _spec
 
         if isinstance(fn, IFunc):
             return self.call_ifunc(fn, args, kwargs)
+        if isinstance(fn, self.models._Closure):
+            return fn.fn(*args, **kwargs)
         if fn is _NULLFN:
             self.used_models.add("A-LOG: logger calls are effect-free and do not raise")
             return None
